@@ -49,16 +49,11 @@ theorem injectedLet_src {s : Node} (h : srcOk s = true) : injectedLet? s = none 
     · rfl
   · rfl
 
-theorem injectedLetIndex_src (ss : List Node) (h : ∀ k ∈ ss, srcOk k = true) : injectedLetIndex ss = none := by
-  unfold injectedLetIndex
-  simp only
-  split
-  · rename_i s rest hd
-    have hm : s ∈ ss := by
-      have : s ∈ List.drop (ss.takeWhile isDirectiveStmt).length ss := by rw [hd]; simp
-      exact List.mem_of_mem_drop this
-    simp [injectedLet_src (h s hm)]
-  · rfl
+theorem injectedLetAt_src (sp : Span) (ss : List Node) (h : ∀ k ∈ ss, srcOk k = true) : injectedLetAt sp ss = none := by
+  unfold injectedLetAt
+  rw [List.findIdx?_eq_none_iff]
+  intro s hs
+  simp [injectedLet_src (h s hs)]
 
 theorem isLoweredGuard_src (t c a : Node) (sp : Span) (h : sp.isDummy = false) : isLoweredGuard (.cond t c a sp) = none := by
   unfold isLoweredGuard
@@ -164,7 +159,7 @@ theorem erase_src : ∀ n : Node, srcOk n = true → ∀ σ, erase σ n = (n, σ
   | block ss sp =>
     simp only [erase]
     rw [eraseL_id ss hk]
-    simp only [injectedLetIndex_src ss hsk, dropAt]
+    simp only [injectedLetAt_src sp ss hsk, dropAt]
   | ifStmt t c a sp =>
     simp only [erase]
     rw [hk t (by simp [kids])]; simp only
